@@ -608,6 +608,10 @@ static int restore_interior_string (char **val, svalue_t * sv) {
   return 0;
 }
 
+/* exponents are accumulated up to this bound only: pow(10, +-100000) is already inf / 0, and an
+ * unbounded 'expo *= 10' overflows the int on a damaged save file */
+#define MAX_SAVE_EXPONENT 100000
+
 static int parse_numeric (char **cpp, char c, svalue_t * dest) {
   char *cp = *cpp;
   uint64_t res; /* magnitude: unsigned, so that every int64 (INT64_MIN included) is restored and long digit runs wrap */
@@ -653,8 +657,8 @@ static int parse_numeric (char **cpp, char c, svalue_t * dest) {
             {
               while ((c = *cp++) && isdigit (c))
                 {
-                  expo *= 10;
-                  expo += (c - '0');
+                  if (expo < MAX_SAVE_EXPONENT)
+                    expo = expo * 10 + (c - '0');
                 }
               f1 *= pow (10.0, expo);
             }
@@ -662,8 +666,8 @@ static int parse_numeric (char **cpp, char c, svalue_t * dest) {
             {
               while ((c = *cp++) && isdigit (c))
                 {
-                  expo *= 10;
-                  expo += (c - '0');
+                  if (expo < MAX_SAVE_EXPONENT)
+                    expo = expo * 10 + (c - '0');
                 }
               f1 *= pow (10.0, -expo);
             }
@@ -685,8 +689,8 @@ static int parse_numeric (char **cpp, char c, svalue_t * dest) {
         {
           while ((c = *cp++) && isdigit (c))
             {
-              expo *= 10;
-              expo += (c - '0');
+              if (expo < MAX_SAVE_EXPONENT)
+                expo = expo * 10 + (c - '0');
             }
           f1 = (double)res * pow (10.0, expo);
         }
@@ -694,8 +698,8 @@ static int parse_numeric (char **cpp, char c, svalue_t * dest) {
         {
           while ((c = *cp++) && isdigit (c))
             {
-              expo *= 10;
-              expo += (c - '0');
+              if (expo < MAX_SAVE_EXPONENT)
+                expo = expo * 10 + (c - '0');
             }
           f1 = (double)res * pow (10.0, -expo);
         }
